@@ -211,10 +211,63 @@ def case_network(ctx, i):
 
     nops = int(rng.integers(3, 8))
     for _ in range(nops):
-        k = int(rng.integers(0, 14))
+        k = int(rng.integers(0, 16))
         j = int(rng.integers(0, L))
         try:
-            if k == 0:
+            if k >= 14:
+                # binary operations with a second state whose outer virtual legs differ (another charge sector after a charged
+                # operator, or a re-gauged copy): the library re-gauges a *shallow copy* internally; neither operand may change
+                from tenpy.networks.mps import MPSEnvironment
+                name = 'two_states'
+                phi = psi.copy()
+                charged = sorted(n_ for n_ in sites[j].opnames if not sites[j].op_needs_JW(n_) and np.any(sites[j].get_op(n_).qtotal != 0))
+                mode = int(rng.integers(0, 3))
+                if charged and mode < 2:
+                    phi.apply_local_op(j, charged[int(rng.integers(len(charged)))], unitary=False)
+                    how = 'charged operator on site %d' % j
+                else:
+                    if len(sites[0].leg.chinfo.mod) == 0:
+                        continue
+                    q = [int(x) for x in rng.integers(-2, 3, size=len(sites[0].leg.chinfo.mod))]
+                    # shift the charges of all virtual legs of the copy by a constant: the same state in another gauge
+                    for b_ in range(L):
+                        B_ = phi.get_B(b_, form=None).copy(deep=True)
+                        for lab_ in ('vL', 'vR'):
+                            leg_ = B_.get_leg(lab_)
+                            new_ = leg_.copy()
+                            new_.charges = leg_.chinfo.make_valid(leg_.charges + leg_.qconj * np.array(q) * (1 if lab_ == 'vL' else -1))
+                            B_.legs[B_.get_leg_index(lab_)] = new_
+                        B_.qtotal = B_.chinfo.make_valid(B_.qtotal)
+                        try:
+                            B_.test_sanity()
+                        except Exception:
+                            B_ = None
+                            break
+                        phi.set_B(b_, B_, form=phi.form[b_])
+                    if B_ is None:
+                        continue
+                    how = 'virtual charges shifted by %r' % q
+                snap2 = NetSnap(phi, None)
+                what_ = int(rng.integers(0, 3))
+                if what_ == 0:
+                    psi.overlap(phi)
+                    phi.overlap(psi)
+                elif what_ == 1:
+                    env_ = MPSEnvironment(phi, psi)
+                    env_.full_contraction(j)
+                else:
+                    try:
+                        psi.add(phi, 0.6, 0.8)
+                    except ValueError:
+                        pass  # (different total charge cannot be added: a loud refusal)
+                case['ops'].append([name, how, ['overlap', 'MPSEnvironment', 'add'][what_]])
+                ctx.count('network.two_state_ops')
+                ok = check(name, '%s with a second state (%s)' % (['overlap', 'MPSEnvironment', 'add'][what_], how))
+                d2 = snap2.diff()
+                if ok and d2:
+                    ctx.violation('%s:second-operand:%s' % (name, d2[0][0]), 'the second MPS (%s) changed: %s' % (how, d2[0][1]), dict(case))
+                    ok = False
+            elif k == 0:
                 name = 'get_B'
                 form = [None, 'A', 'B', 'C', 'G', 'Th', (0.5, 0.5), (1., 1.)][int(rng.integers(8))]
                 if form is None:
